@@ -183,14 +183,20 @@ def cq_pid(p, i):
 
 
 def split_path(rel):
-    return [] if rel in ("", ".") else rel.split("/")
+    """std::path::Path::components of a storage-root relative path, as the model's list of Normal
+    components: empty and `.` components vanish; a path that is absolute or has a `..` component is no
+    relative descendant (fs.rs:1230-1240: never looked up, never created) = the model's empty path"""
+    if rel.startswith("/"):
+        return []
+    parts = [c for c in rel.split("/") if c not in ("", ".")]
+    return [] if ".." in parts else parts
 
 
-def abstract_tree(d):
-    """the directory tree below d as a Listing.tree term: every name; contents only of the
-    inventory.json directly in a directory that holds an object declaration; directories below
-    an object root are cut to [Dir []] (the walk never descends, only [extensions] is kept for
-    the mutable-HEAD inventory path)"""
+def abstract_tree(d, deep=False):
+    """the directory tree below d as a Listing.tree term: every name; contents only of inventory.json
+    files; directories below an object root are cut to [Dir []] (the walk never descends, only
+    [extensions] is kept for the mutable-HEAD inventory path) - unless deep: then the directories
+    inside an object are kept too (a lookup through a layout path may land there)"""
     try:
         names = sorted(os.listdir(d))
     except OSError:
@@ -200,10 +206,10 @@ def abstract_tree(d):
     for n in names:
         p = os.path.join(d, n)
         if os.path.isdir(p) and not os.path.islink(p):
-            if has_decl and n != "extensions":
+            if has_decl and n != "extensions" and not deep:
                 sub = "(Dir [])"
             else:
-                sub = abstract_tree(p)
+                sub = abstract_tree(p, deep)
         else:
             content = b""
             if n == "inventory.json":
@@ -363,12 +369,38 @@ def scripted_case(rng, k, n):
     return {"k": k, "cfg": cfg, "ops": ops, "probes": probes, "globs": globs, "scripted": True}
 
 
+def occupied_case(rng, k, n):
+    """flat layouts: ids whose layout path exists without being an object - the storage root's `extensions`
+    directory and files, and (0002, ids with `/`) a directory other objects are stored beneath.  get_object
+    of such an id is NotFound (fs.rs:243-246), it is listed nowhere, and committing it is refused."""
+    layout = ("0002", "0006")[n % 2]
+    pre = "p:" if layout == "0006" else ""
+    cfg = {"layout": layout, "repo_spec": ("1.1", "1.0")[(n // 2) % 2], "obj_spec": "1.0", "alg": "sha256", "cdir": "content",
+           "pad": 0, "ext_staging": n % 3 == 0, "fresh_handle": n % 4 < 2}
+    ops = [{"op": "create", "raw": pre + "keep", "id": pre + "keep", "root": None, "pretty": False}]
+    if layout == "0002":
+        ops += [{"op": "create", "raw": "dir/sub/obj", "id": "dir/sub/obj", "root": None, "pretty": n % 4 == 0},
+                {"op": "create", "raw": "dir/other", "id": "dir/other", "root": None, "pretty": False}]
+    squat = [pre + x for x in ("extensions", "0=ocfl_1.1", "0=ocfl_1.0", "ocfl_layout.json", "extensions/rocfl-staging")]
+    if layout == "0002":
+        squat += ["dir", "dir/sub", "dir/sub/obj/v1", "dir/sub/obj/inner"]
+    rng.shuffle(squat)
+    # creating them must fail at the commit (the object stays staged only)
+    ops += [{"op": "create", "raw": x, "id": x, "root": None, "pretty": False} for x in squat[:3]]
+    ops += [{"op": "purge", "id": squat[0]}, {"op": "update", "id": pre + "keep", "pretty": False}]
+    probes = [x for x in squat if x not in [o["id"] for o in ops]] + [pre + "nope"]
+    globs = [glob_tokens(rng, [pre + "keep", "dir/sub/obj", pre + "extensions"]) for _ in range(4)]
+    return {"k": k, "cfg": cfg, "ops": ops, "probes": probes, "globs": globs, "scripted": True, "deep": True}
+
+
 def gen_cases(ctx):
     keys = ["none", "0003", "0004", "0002", "none", "0006", "0007", "0003b", "0004b", "none"]
-    n = 200 if ctx.quick() else 4000
+    n = 170 if ctx.quick() else 4000
     cases = [gen_case(ctx.rng, k, keys[k % len(keys)]) for k in range(n)]
     m = 12 if ctx.quick() else 72
-    return cases + [scripted_case(ctx.rng, n + j, j) for j in range(m)]
+    cases += [scripted_case(ctx.rng, n + j, j) for j in range(m)]
+    m2 = 8 if ctx.quick() else 48
+    return cases + [occupied_case(ctx.rng, n + m + j, j) for j in range(m2)]
 
 
 # --------------------------------------------------------------------------- running a case
@@ -489,7 +521,7 @@ class CaseRun:
             return False
         if o == "purge":
             nolayout = self.cfg["layout"] == "none"
-            before = abstract_tree(self.r.root)
+            before = abstract_tree(self.r.root, self.case.get("deep", False))
             view = self.cache_view(tid) if nolayout and not self.cfg["fresh_handle"] else {}
             r = self.step({"op": "purge", "id": tid})
             ev["res"].append(hist.res_class(r))
@@ -510,6 +542,10 @@ class CaseRun:
                     self.purged.add(tid)
                 self.staged.discard(tid)     # purge also drops the staged version
                 return True
+            if hist.res_class(r) == "err:IllegalState":
+                # the staged version is purged first (repo.rs:524-526); the refusal comes from the main
+                # store's guard on the object root (fs.rs:578)
+                self.staged.discard(tid)
             return False
         return False
 
@@ -549,7 +585,7 @@ class CaseRun:
               "queries": [], "final": final}
         purges, self.pending_purge = self.pending_purge, []
         # the state the queries run on (nothing below mutates the repository)
-        cp["tree"] = abstract_tree(self.r.root)
+        cp["tree"] = abstract_tree(self.r.root, case.get("deep", False))
         cp["stree"] = abstract_tree(self.r.staging_root) if os.path.isdir(self.r.staging_root) else "(Dir [])"
         qs = cp["queries"]
         if len(purges) == 1:
@@ -667,7 +703,7 @@ def checkpoint_term(case, cp):
             o = q["obs"]
             ot = "(OFound %s %s)" % (cq_path(o[1]), nm.ref(o[2])) if o[0] == "found" else obs_term(o)
             bits.append("check_get lay %s t %s %s" % (cache, ident, ot))
-            bits.append("match lay with Some m => c19_layout_path_occupied t (amap m %s) | None => false end" % ident)
+            bits.append("match lay with Some m => c19_layout_path_inside_object t (amap m %s) | None => false end" % ident)
     return "%slet t := %s in let s := %s in %slet lay := (%s : option (list (bytes * path))) in [%s]" % (
         nm.lets(), cp["tree"], cp["stree"], t0, lay, "; ".join(bits))
 
@@ -832,15 +868,15 @@ def judge_checkpoint(ctx, case, cp, bits, stats, known_ids):
             if bits is None:
                 report(q, [], True)
                 continue
-            model_ok, occupied = bits[pos], bits[pos + 1]
+            model_ok, inside = bits[pos], bits[pos + 1]
             pos += 2
             if not q["coq"]:
                 model_ok = True          # cache of the live handle unknown for this id: direct oracle only
                 stats["get_live_uncompared"] += 1
             slugs = []
             if q["msg"]:
-                if occupied:
-                    slugs.append("layout-path-occupied")
+                if inside:
+                    slugs.append("layout-path-inside-object")
                 if nolayout and esc:
                     # includes the second lookup of the cut text through the same handle: the scan cached
                     # the wrong match (fs.rs:217-221), the cached path then fails the id comparison
@@ -1001,7 +1037,9 @@ RULE = ("id-set cases: 3-8 ids drawn from a hostile pool (glob metacharacters, q
         "every layout key of hist.LAYOUTS and none; create / stage-only / update / purge / re-create (roots reused, roots "
         "below a directory named extensions and roots named extensions when there is no layout); one handle or a fresh handle per call; "
         "scripted cases without layout (A committed and looked up, purged, a new id B committed at the same root, "
-        "purged, A committed elsewhere; one handle or fresh handles); every purge is compared with the model's purge_object (result, objects left); at the end validate_repo must visit exactly "
+        "purged, A committed elsewhere; one handle or fresh handles); scripted flat-layout cases (0002/0006) whose ids map onto the "
+        "storage root's extensions directory and files or, with `/` in the id, onto a directory other objects are stored beneath "
+        "or a directory inside an object; every purge is compared with the model's purge_object (result, objects left); at the end validate_repo must visit exactly "
         "the committed objects; after every "
         "commit and purge: list_objects(None), 4 generated globs, list_staged, get_object of committed, staged-only, purged and "
         "never-committed ids; distinct = distinct (layout, handle mode, query, reference state)")
